@@ -100,6 +100,7 @@ class Program:
         s.inherent = {}
         s.traitimpl = {}
         s.free = {}
+        s.free_q = {}
         s.closures = {}
         s.defaults = {}
         s.enums = dict(STD_ENUMS)
@@ -193,6 +194,8 @@ class Program:
         if len(parts) >= 2 and parts[-2][:1].isupper():
             s.defaults[(parts[-2], parts[-1])] = f
         s.free[parts[-1]] = f
+        if len(parts) >= 2:
+            s.free_q[(parts[-2], parts[-1])] = f      # rustc qualifies a path only when the short name is ambiguous
 
     def variant_owner(s):
         if s._vo is None:
@@ -388,6 +391,8 @@ class Program:
             return n
         if len(parts) >= 2 and (parts[-2], parts[-1]) in s.defaults:
             return s.defaults[(parts[-2], parts[-1])]
+        if len(parts) >= 2 and (parts[-2], parts[-1]) in s.free_q:
+            return s.free_q[(parts[-2], parts[-1])]
         if parts[-1] in s.free and (len(parts) == 1 or not parts[-2][:1].isupper()):
             return s.free[parts[-1]]
         raise Unsupported('call ' + callee + ' -> ' + key)
